@@ -1,0 +1,54 @@
+//go:build verif
+
+package economics
+
+// Contracts for govc (/verif). Comment-only file: no executable code, not part of the default build.
+
+/*@
+struct economicsData
+  invariant modifier-range: gasPriceModifier > 0.0 && gasPriceModifier <= 1.0
+
+// interface-level contracts: transaction getters and the built-in cost handler are functions of their arguments
+func (tx process.TransactionWithFeeHandler) GetGasLimit() (r uint64)
+  pure
+func (tx process.TransactionWithFeeHandler) GetGasPrice() (r uint64)
+  pure
+func (tx process.TransactionWithFeeHandler) GetData() (r []byte)
+  pure
+func (tx process.TransactionWithFeeHandler) GetValue() (r *big.Int)
+  pure
+func (h BuiltInFunctionsCostHandler) ComputeBuiltInCost(tx process.TransactionWithFeeHandler) (r uint64)
+  pure
+func (h BuiltInFunctionsCostHandler) IsBuiltInFuncCall(tx process.TransactionWithFeeHandler) (r bool)
+  pure
+
+spec fn moveGas(ed *economicsData, tx process.TransactionWithFeeHandler) int = ed.minGasLimit + len(tx.GetData()) * ed.gasPerDataByte
+spec fn isSCR(tx process.TransactionWithFeeHandler) bool = typeIs(tx, ptr_smartContractResult.SmartContractResult)
+
+func (ed *economicsData) ComputeGasLimit(tx process.TransactionWithFeeHandler) (r uint64)
+  pure
+  requires tx != nil
+  requires gas-limit-fits-uint64: moveGas(ed, tx) < 18446744073709551616
+  ensures  formula: r == moveGas(ed, tx)
+
+func (ed *economicsData) GasPriceModifier() (r float64)
+  pure
+  requires inv(ed)
+  ensures modifier-or-one: flagSet(ed.flagGasPriceModifier) ? r == ed.gasPriceModifier : r == 1.0
+
+func (ed *economicsData) GasPriceForMove(tx process.TransactionWithFeeHandler) (r uint64)
+  pure
+  requires tx != nil
+  ensures r == tx.GetGasPrice()
+
+func isSmartContractResult(tx process.TransactionWithFeeHandler) (r bool)
+  pure
+  ensures r == isSCR(tx)
+
+func (ed *economicsData) GasPriceForProcessing(tx process.TransactionWithFeeHandler) (r uint64)
+  mode bv
+  pure
+  requires tx != nil
+  requires inv(ed)
+  ensures  at-most-gas-price: r <= tx.GetGasPrice()
+@*/
